@@ -110,6 +110,17 @@ func (c *chunk) splitChunkForBranch(statementIndex int, chunkCounter *int, remai
 	return remainingChunks, returnID
 }
 
+// Statements that follow an unconditional jump (break or continue) can never be reached by
+// falling into them, but they can still contain labels that are jumped to. Keep them in a
+// chunk of their own, so they are still rendered.
+func (c *chunk) keepStatementsAfterJump(statementIndex int, chunkCounter *int, remainingChunks []*chunk) []*chunk {
+	if c.isLastStatement(statementIndex) {
+		return remainingChunks
+	}
+	*chunkCounter++
+	return append(remainingChunks, c.createPostLogicChunk(*chunkCounter, statementIndex))
+}
+
 func (c *chunk) isLastStatement(statementIndex int) bool {
 	return statementIndex == len(c.statements)-1
 }
